@@ -25,6 +25,7 @@ import (
 	"log/slog"
 	"net"
 	"os"
+	"sync"
 	"time"
 
 	"github.com/google/gopacket"
@@ -69,6 +70,10 @@ type lsn struct {
 	lost  bool
 }
 
+var clockOnce sync.Once
+
+func registerClock() { clockOnce.Do(func() { timebase.RegisterClock(sysClock{}) }) }
+
 var (
 	theProvider *ntske.Provider
 	theLsns     []*lsn
@@ -76,15 +81,19 @@ var (
 	sentinelLost bool
 )
 
+func lsnIP() net.IP {
+	pid := os.Getpid()
+	return net.IPv4(127, 10, byte(pid>>8), byte(pid))
+}
+
 func getLsns() []*lsn {
 	if theLsns != nil {
 		return theLsns
 	}
-	timebase.RegisterClock(sysClock{})
+	registerClock()
 	setTape()
 	theProvider = ntske.NewProvider()
-	pid := os.Getpid()
-	ip := net.IPv4(127, 10, byte(pid>>8), byte(pid))
+	ip := lsnIP()
 	log := slog.New(slog.DiscardHandler)
 	ipDst := &net.UDPAddr{IP: ip, Port: lsnPort}
 	server.StartIPServer(context.Background(), log, ipDst, 0, theProvider)
@@ -368,6 +377,60 @@ func lsnSession(r *lib.Rng, n int) *session {
 	return s
 }
 
+// sealQuiet seals a cookie of session s with the project's own code
+// (EncryptWithNonce + Encode) without recording a case, with fresh nonces until
+// want holds for the cookie bytes and the nonce.
+func sealQuiet(r *lib.Rng, s *session, want func(cb, nonce []byte) bool) []byte {
+	sc := ntske.ServerCookie{Algo: s.algo, S2C: s.s2c, C2S: s.c2s}
+	// the length of the search depends on the server key: it must not move r's stream
+	r = lib.NewRng(r.U64())
+	for try := 0; try < 1<<22; try++ {
+		nonce := r.Bytes(16)
+		setTape(nonce)
+		ec, err := sc.EncryptWithNonce(s.master, s.keyid)
+		setTape()
+		if err != nil {
+			panic(err)
+		}
+		cb := ec.Encode()
+		if want == nil || want(cb, nonce) {
+			return cb
+		}
+	}
+	panic("no cookie of the wanted shape found")
+}
+
+// freshRequests: honest requests of clients that share the keys of s, each with a
+// freshly sealed cookie (fresh nonce, so fresh ciphertext), and cookies whose
+// ciphertext / nonce end in zero bytes: every one must be answered.
+func (l *lsn) freshRequests(r *lib.Rng, s *session, q *honest, n int, deep bool) {
+	send := func(tags string, cb []byte) {
+		x := &session{master: s.master, keyid: s.keyid, c2s: s.c2s, s2c: s.s2c, algo: s.algo, pool: [][]byte{cb}}
+		xq := lsnRequest(r, x)
+		l.srvCase(tags, []*honest{xq, q}, xq.b, x)
+	}
+	for i := 0; i < n; i++ {
+		send("nt,honest,complete,fresh", sealQuiet(r, s, nil))
+	}
+	end := func(k int) func(cb, nonce []byte) bool {
+		return func(cb, _ []byte) bool {
+			for _, x := range cb[len(cb)-k:] {
+				if x != 0 {
+					return false
+				}
+			}
+			return true
+		}
+	}
+	send("nt,honest,complete,cookie00,ct0", sealQuiet(r, s, end(1)))
+	send("nt,honest,complete,cookie00,ct0", sealQuiet(r, s, end(1)))
+	send("nt,honest,complete,cookie00,nonce0", sealQuiet(r, s, func(_, nonce []byte) bool { return nonce[15] == 0 }))
+	send("nt,honest,complete,cookie00,ctfirst0", sealQuiet(r, s, func(cb, _ []byte) bool { return cb[30] == 0 }))
+	if deep {
+		send("nt,honest,complete,cookie00,ct00", sealQuiet(r, s, end(2)))
+	}
+}
+
 func extraCases(r *lib.Rng, thorough bool) {
 	ls := getLsns()
 	rounds := 2
@@ -383,14 +446,14 @@ func extraCases(r *lib.Rng, thorough bool) {
 		}
 		for _, l := range ls {
 			if !l.lost {
-				l.round(r, thorough, olds)
+				l.round(r, thorough, olds, round == 0)
 			}
 		}
 		olds = append(olds, lsnSession(r, 2), lsnSession(r, 1))
 	}
 }
 
-func (l *lsn) round(r *lib.Rng, thorough bool, olds []*session) {
+func (l *lsn) round(r *lib.Rng, thorough bool, olds []*session, deep bool) {
 	cur := theProvider.Current()
 	s := lsnSession(r, 1+r.Intn(8))
 	// another client of the same server
@@ -400,6 +463,11 @@ func (l *lsn) round(r *lib.Rng, thorough bool, olds []*session) {
 	hs := []*honest{q, oq}
 	l.honestAndFollowUp(r, "nt,honest,complete", s, q, []*honest{oq})
 	l.honestAndFollowUp(r, "nt,honest,complete", o, oq, []*honest{q})
+	nfresh := 40
+	if thorough {
+		nfresh = 200
+	}
+	l.freshRequests(r, s, q, nfresh, deep)
 	// clients whose cookies were sealed under an older key of the provider: answered
 	// while that key is valid (with cookies under the current key), not afterwards
 	for _, x := range olds {
@@ -468,6 +536,10 @@ func (l *lsn) round(r *lib.Rng, thorough bool, olds []*session) {
 }
 
 func replayExtra(c [3]string) {
+	if c[0] == "cl.ip" {
+		replayClient()
+		return
+	}
 	if c[0] != "srv.ip" && c[0] != "srv.scion" {
 		return
 	}
